@@ -175,8 +175,13 @@ class Scene:
         # 15% of the scenes live at the floor of the size domain (every feature 0.2 .. 0.5): absolute thresholds
         # and iteration tolerances of the functions are weakest there
         s.small = bool(rng.random() < 0.15)
+        s.tiny = False
         if s.small:
             s.h = float(rng.uniform(0.1, 0.2))
+            # a third of them at the very floor (features 0.02 .. 0.1, the domain starts at 1e-2)
+            if rng.random() < 0.35:
+                s.tiny = True
+                s.h = float(rng.uniform(0.01, 0.05))
 
     def direction(s):
         rng = s.rng
@@ -215,6 +220,8 @@ class Scene:
 
     def length(s):
         rng = s.rng
+        if s.tiny:
+            return float(rng.choice([2 * s.h, rng.uniform(0.02, 0.1)])) if s.structured else float(rng.uniform(0.02, 0.1))
         if s.small:
             return float(rng.choice([2 * s.h, rng.uniform(0.2, 0.5)])) if s.structured else float(rng.uniform(0.2, 0.5))
         if s.structured and rng.random() < 0.8:
@@ -281,7 +288,9 @@ def make(kind, sc):
         return Prim(kind, (f(T), f(size)), O.OBox(T, size), [R[:, i] for i in range(3)])
     if kind in ("ellipsoid", "ellipsoid_surface"):
         R = sc.frame(); c = sc.point(); radii = np.array([sc.length(), sc.length(), sc.length()]) * 0.5
-        if sc.small:
+        if sc.tiny:
+            radii = rng.uniform(0.01, 0.1, size=3)
+        elif sc.small:
             radii = rng.uniform(0.2, 0.45, size=3)
         radii = np.maximum(radii, SMIN)
         T = O.pose(R, c)
